@@ -19,7 +19,7 @@ import (
 // SrvCfg is an upgrader configuration (each dimension: variant 0 = nil / not configured).
 var SrvFields = []Field{
 	{"proto", []string{"nil", "all", "b", "none", "custom-all", "custom-b", "sel-equal-b", "sel-slice-b", "sel-bigslice-b"}},
-	{"ext", []string{"nil", "all", "none", "custom-all", "negotiate-echo", "negotiate-decline", "negotiate-error", "negotiate-pmd", "negotiate-error-x", "negotiate-error-y"}},
+	{"ext", []string{"nil", "all", "none", "custom-all", "negotiate-echo", "negotiate-decline", "negotiate-error", "negotiate-pmd", "negotiate-error-x", "negotiate-error-y", "custom-alias"}},
 	{"header", []string{"nil", "one", "bytes", "http", "func-long", "func-long-fails"}},
 	{"onrequest", []string{"nil", "ok", "err", "reject403", "err-list"}},
 	{"onhost", []string{"nil", "ok", "err", "reject403", "err-list"}},
@@ -129,6 +129,12 @@ func (c SrvCfg) Upgrader() ws.Upgrader {
 		u.ExtensionCustom = func(v []byte, dst []httphead.Option) ([]httphead.Option, bool) {
 			s := httphead.OptionSelector{Flags: httphead.SelectCopy}
 			return s.Select(v, dst)
+		}
+	case "custom-alias":
+		// "returned options should be valid until Upgrade returns": the options point into the
+		// header value they were parsed from, which lives in the upgrader's read buffer
+		u.ExtensionCustom = func(v []byte, dst []httphead.Option) ([]httphead.Option, bool) {
+			return httphead.ParseOptions(v, dst)
 		}
 	case "negotiate-echo":
 		u.Negotiate = func(o httphead.Option) (httphead.Option, error) { return o.Clone(), nil }
@@ -308,7 +314,7 @@ func (c SrvCfg) Expect(r Req) SrvExpect {
 		}
 	}
 	switch c.V("ext") {
-	case "all", "custom-all", "negotiate-echo":
+	case "all", "custom-all", "negotiate-echo", "custom-alias":
 		e.ExtNames = off
 	case "negotiate-pmd":
 		for _, n := range off {
@@ -519,6 +525,10 @@ func JudgeServer(r Req, c SrvCfg, out []byte, hsk ws.Handshake, err error, flavo
 		var sentNames []string
 		for _, x := range ge {
 			sentNames = append(sentNames, ExtNames(x)...)
+		}
+		if c.V("ext") == "custom-alias" {
+			// the returned options are only promised to be valid until Upgrade returns
+			retNames = sentNames
 		}
 		if strings.Join(sentNames, ",") != strings.Join(retNames, ",") {
 			return "extensions-sent-differ-from-returned:" + cls, fmt.Sprintf("sent %v returned %v", sentNames, retNames)
